@@ -1,3 +1,7 @@
 import PfVerif.Audit.Tool
 import PfVerif.Props.C01
+import PfVerif.Lemmas.C01Hedger
+import PfVerif.Lemmas.C01HedgerC14
 #audit_module PfVerif.Props.C01
+#audit_module_ns PfVerif.Lemmas.C01Hedger PfVerif.C01Hedger
+#audit_module_ns PfVerif.Lemmas.C01HedgerC14 PfVerif.C01HedgerC14
